@@ -217,6 +217,8 @@ export class Env {
       }
       case "util":
         return this.normUtil(t, scope);
+      case "fn":
+        return { c: "fn" };
       case "builtin":
         if (t.name === "Date") return { c: "date" };
         return { c: "typed", name: t.name };
